@@ -21,7 +21,9 @@ search: the dot test <Ax,y> == <x,A.H y>, swapped shapes, A.H.H(x) == A(x) on th
   as real or complex, in C / Fortran / strided / negative-stride / component-view / offset layouts, as two interleaved
   pairs on the same live objects, and - where the arithmetic is exact - scaled by 2^+-200 / 2^+-500 or in single
   precision; parameter arrays (Multiply / MatMul / RightMatMul data, Interpolate / Gridding coordinates) also come in
-  real, single-precision and integer dtypes.  The same test runs on every live object of the operator programs, at
+  real, single-precision and integer dtypes; SCALAR multipliers (Multiply(shape, a), a * A, A * a - in the trees, the
+  operator programs and a systematic type x route sweep) are handed over in every scalar type that holds the value
+  exactly: Python int / float / complex / bool and the numpy scalar types (complex64 / 128, float16 / 32 / 64, int8 / 32 / 64, uint8 / 16, bool_).  The same test runs on every live object of the operator programs, at
   every "check" statement and at the end (keys C01:history:<class of the failing object>:<what>).
 """
 import itertools
@@ -127,7 +129,7 @@ def O(x):
 
 def Gs(z):
     """Gaussian integer/rational scalar [re, im] -> token"""
-    re, im = z
+    re, im = z[0], z[1]   # z[2], when present, is the TYPE the scalar is handed over in (the value is the same)
     return "%s;%s" % (Fraction(re), Fraction(im)) if im != 0 else "%s" % Fraction(re)
 
 
@@ -141,6 +143,58 @@ def SL(idx):
 
 def cplx(z):
     return complex(z[0], z[1])
+
+
+# ---- scalar multipliers: the TYPE a scalar is handed over in ----------------------------------------------
+# "scalar *" of the property is whatever np.isscalar accepts as a number (linop.py: Linop.__mul__ / __rmul__ /
+# Multiply.__init__ test np.isscalar): Python int / float / complex / bool and every numpy scalar type - e.g. an element
+# or a sum taken from a single-precision array is a numpy.complex64, which is NOT a subclass of Python complex (only
+# numpy.complex128 / float64 subclass the Python types).  A scalar is [re, im] or [re, im, tag]; the values are small
+# Gaussian integers, exactly representable in every one of the types (real types only for im == 0, unsigned only for
+# re >= 0, bool only for 0 / 1), so the operator - and the model's matrix - is the same whatever the tag.
+# Not generated: numpy.longdouble / clongdouble scalars.  They turn every product into an extended-precision array, which
+# the numba kernels behind ArrayToBlocks / Interpolate / Gridding reject exactly as they reject an extended-precision x
+# (a limit of the supported array dtypes, not of the adjoint pairing); `scalar` still builds them for hand-written cases.
+SCALAR_C = ("py", "c64", "c128")
+SCALAR_R = ("pyfloat", "f64", "f32", "f16")
+SCALAR_X = ("clong", "flong")
+SCALAR_I = ("pyint", "i64", "i32", "i8")
+SCALAR_U = ("u8", "u16")
+SCALAR_B = ("bool", "npbool")
+SCALAR_TAGS = SCALAR_C + SCALAR_R + SCALAR_I + SCALAR_U + SCALAR_B
+_NP_SCALAR = dict(c64=np.complex64, c128=np.complex128, clong=np.clongdouble, f64=np.float64, f32=np.float32,
+                  f16=np.float16, flong=np.longdouble, i64=np.int64, i32=np.int32, i8=np.int8, u8=np.uint8,
+                  u16=np.uint16, npbool=np.bool_)
+
+
+def scalar_tags(z):
+    """the types that hold the value z = [re, im, ...] exactly"""
+    t = list(SCALAR_C)
+    if z[1] == 0 and z[0] == int(z[0]):
+        t += list(SCALAR_R) + list(SCALAR_I)
+        if z[0] >= 0:
+            t += list(SCALAR_U)
+        if z[0] in (0, 1):
+            t += list(SCALAR_B)
+    return t
+
+
+def scalar(z):
+    """the scalar object handed to the library for z = [re, im] (Python complex) or [re, im, tag]"""
+    tag = z[2] if len(z) > 2 else None
+    if tag in (None, "py"):
+        return cplx(z)
+    if tag not in scalar_tags(z) and not (tag == "clong" or (tag == "flong" and z[1] == 0)):
+        raise ValueError("scalar %r is not representable as %s" % (z[:2], tag))
+    if tag in SCALAR_C or tag == "clong":
+        return _NP_SCALAR[tag](cplx(z))
+    if tag == "pyfloat":
+        return float(z[0])
+    if tag == "pyint":
+        return int(z[0])
+    if tag == "bool":
+        return bool(z[0])
+    return _NP_SCALAR[tag](int(z[0]))
 
 
 ARR_DTYPES = {"c128": np.complex128, "c64": np.complex64, "f64": np.float64, "f32": np.float32, "i64": np.int64,
@@ -250,7 +304,10 @@ def leaf_build(kind, p):
     if kind == "mul":
         if p["msh"] is None:
             z = p["mult"][0]
-            m = int(z[0]) if (z[1] == 0 and p.get("intscalar")) else cplx(z)
+            if p.get("st"):   # type of the scalar (see `scalar`)
+                m = scalar([z[0], z[1], p["st"]])
+            else:
+                m = int(z[0]) if (z[1] == 0 and p.get("intscalar")) else cplx(z)
             return lo.Multiply(p["ish"], m, conj=bool(p["conj"]))
         return lo.Multiply(p["ish"], carr(p["mult"], p["msh"], p.get("dt")), conj=bool(p["conj"]))
     if kind == "matmul":
@@ -365,9 +422,9 @@ def build(spec):
     if t == "N":
         return build(spec[1]).N
     if t == "scale":
-        return cplx(spec[1]) * build(spec[2])
+        return scalar(spec[1]) * build(spec[2])
     if t == "rscale":
-        return build(spec[2]) * cplx(spec[1])
+        return build(spec[2]) * scalar(spec[1])
     if t == "hstack":
         return lo.Hstack([build(s) for s in spec[2]], axis=spec[1])
     if t == "vstack":
@@ -506,6 +563,15 @@ def gint(rng, lo=-3, hi=3, nz=False):
             return z
 
 
+def gscalar(rng, lo=-3, hi=3, nz=False):
+    """Gaussian-integer scalar together with the type it is handed over in: [re, im] (Python complex, 40 %) or
+    [re, im, tag] with a tag that holds the value exactly"""
+    z = gint(rng, lo, hi, nz)
+    if rng.random() < 0.4:
+        return z
+    return z + [rng.choice(scalar_tags(z))]
+
+
 def rand_axes(rng, nd, allow_empty=True, neg=True):
     k = rng.randint(0 if allow_empty else 1, nd)
     ax = rng.sample(range(nd), k)
@@ -598,8 +664,8 @@ def gen_leaf(rng, ish=None, kinds=None):
         elif kind == "mul":
             r = rng.random()
             if r < 0.3:
-                z = gint(rng)
-                p = dict(ish=sh, msh=None, mult=[z], conj=int(rng.random() < 0.5), intscalar=rng.random() < 0.3)
+                z = gscalar(rng)
+                p = dict(ish=sh, msh=None, mult=[z[:2]], conj=int(rng.random() < 0.5), st=z[2] if len(z) > 2 else None)
             else:
                 me = [rng.choice([n, n, 1]) if n != 1 else rng.choice([1, 1, 2, 3]) for n in sh]
                 rr = rng.random()
@@ -730,7 +796,7 @@ def gen_tree(rng, depth, ish=None, stack_neg=False):
                 spec = ["H", sa]
             elif t in ("scale", "rscale"):
                 sa, A = gen_tree(rng, depth - 1, ish)
-                spec = [t, gint(rng), sa]
+                spec = [t, gscalar(rng), sa]
             elif t in ("hstack", "vstack", "diag"):
                 if ish is not None:
                     continue
@@ -886,6 +952,33 @@ def class_sweep(rng, per):
     return out
 
 
+SCALAR_ROUTES = ("Multiply", "Multiply-conj", "a*A", "A*a")
+
+
+def scalar_type_sweep(rng):
+    """every scalar type (SCALAR_TAGS) x every route by which a scalar multiplier enters the library - Multiply(shape, a),
+    Multiply(shape, a, conj=True), a * A, A * a - on a random operator A of the model, with a random value the type holds
+    exactly (complex types: mostly with a non-zero imaginary part).  Returns [(spec, linop, route, tag)]."""
+    out = []
+    for tag in SCALAR_TAGS:
+        for route in SCALAR_ROUTES:
+            if tag in SCALAR_C:
+                z = [rng.randint(-3, 3), rng.choice([1, -1, 2, -2, 3, 0])]
+            elif tag in SCALAR_B:
+                z = [rng.choice([0, 1, 1]), 0]
+            elif tag in SCALAR_U:
+                z = [rng.randint(0, 3), 0]
+            else:
+                z = [rng.randint(-3, 3), 0]
+            if route.startswith("Multiply"):
+                spec = ["leaf", "mul", dict(ish=rshape(rng), msh=None, mult=[z], conj=int(route.endswith("conj")), st=tag)]
+            else:
+                sa, _ = gen_leaf(rng, None)
+                spec = ["scale" if route == "a*A" else "rscale", z + [tag], sa]
+            out.append((spec, build(spec), route, tag))
+    return out
+
+
 def findiff_spec(sh, axes):
     """FiniteDifference written with the model's combinators (what the factory is documented to build)"""
     nd = len(sh)
@@ -925,7 +1018,9 @@ def correspond(ctx, which=("M", "MH")):
                 "the Lean model's matrix; distinct by protocol line; all cases are non-empty operators; stream "
                 "`histories`: case = (operator program, live object): the program builds a pool of operators from shared "
                 "operands with adjoints taken in between, the object's matrices after the whole program are compared "
-                "with the model's matrices of the expression it denotes; distinct by (program, object)")
+                "with the model's matrices of the expression it denotes; distinct by (program, object); scalar multipliers "
+                "are handed to the implementation in a random scalar type holding the value exactly (stream "
+                "`scalar-types`: every type x every route), the protocol line carries the value only")
     ctx.assumptions += [
         "numpy slicing / roll / tile / sum / matmul / reshape / transpose contracts (exercised by the correspondence)",
         "leaf pairing L.H = adjoint of L: proved in Lean for all 19 exactly representable classes - Identity, Reshape, "
@@ -1021,6 +1116,14 @@ def correspond(ctx, which=("M", "MH")):
             ctx.case(ln, sample=dict(line=ln, reply=r[:160]) if ctx.evaluations % 11 == 0 else None)
             bad += corr_case(ctx, spec, A, r, "conv-ext", which)
         ctx.oblige("correspondence:%s.conv-ext" % ctx.prop, "correspondence", bad == 0, "%d disagreements" % bad)
+    if ctx.prop == "C01":
+        # scalar multipliers of every scalar type, by every route (the model's matrix does not depend on the type)
+        st = scalar_type_sweep(rng)
+        for _, _, route, tag in st:
+            ctx.count("scalar-type:%s" % tag)
+            ctx.count("scalar-route:%s" % route)
+        bad = run_corr(ctx, [(s_, A_) for s_, A_, _, _ in st], "scalar-types", which)
+        ctx.oblige("correspondence:%s.scalar-types" % ctx.prop, "correspondence", bad == 0, "%d disagreements" % bad)
     if ctx.prop == "C01":
         bad = corr_histories(ctx, 90 if quick else 500, which)
         ctx.oblige("correspondence:%s.histories" % ctx.prop, "correspondence", bad == 0, "%d disagreements" % bad)
@@ -1196,13 +1299,13 @@ def wrap_opaque(rng, spec, A):
         if r < 0.55:
             s = ["H", spec]
         elif r < 0.7:
-            s = ["scale", gint(rng), ["conj", spec]]
+            s = [rng.choice(["scale", "rscale"]), gscalar(rng), ["conj", spec]]
         elif r < 0.85:
             ps, _ = shape_preserving(rng, ishp(A))
             s = ["comp", spec, ps] if prod(A.ishape) <= MAXEL else ["neg", spec]
         else:
             s = rng.choice([["hstack", None, [spec, ["conj", spec]]], ["vstack", None, [spec, ["neg", spec]]],
-                            ["diag", None, None, [spec, ["H", ["H", spec]]]], ["add", spec, ["scale", gint(rng), spec]]])
+                            ["diag", None, None, [spec, ["H", ["H", spec]]]], ["add", spec, [rng.choice(["scale", "rscale"]), gscalar(rng), spec]]])
         return s, build(s)
     except Exception:
         return spec, A
@@ -1605,9 +1708,9 @@ def exec_stmt(st, pool, lists):
     if t == "conj":
         return lo.Conj(pool[st[1]])
     if t == "scale":
-        return cplx(st[1]) * pool[st[2]]
+        return scalar(st[1]) * pool[st[2]]
     if t == "rscale":
-        return pool[st[2]] * cplx(st[1])
+        return pool[st[2]] * scalar(st[1])
     if t in NARY:
         idx, share = st[-2], st[-1]
         ops = lists[share] if share is not None else [pool[i] for i in idx]
@@ -1749,7 +1852,7 @@ def gen_program(rng, opaque=False, lim=MAXEL):
         if rr < 0.25:
             return push(["conj", i])
         if rr < 0.45:
-            return push(["scale", gint(rng, nz=True), i])
+            return push([rng.choice(["scale", "rscale"]), gscalar(rng, nz=True), i])
         if rr < 0.75:
             q = push(["new", shape_preserving(rng, oshp(pool[i]))[0]])
             return None if q is None else push(["comp", q, i])
@@ -1839,7 +1942,7 @@ def gen_program(rng, opaque=False, lim=MAXEL):
                 push(["diag", oax, iax, ops, None])
         elif m == "unary":
             t = rng.choice(["neg", "conj", "scale", "rscale"])
-            push([t, i] if t in ("neg", "conj") else [t, gint(rng, nz=True), i])
+            push([t, i] if t in ("neg", "conj") else [t, gscalar(rng, nz=True), i])
         elif m == "share":
             ks = [k for k in lists if prog[k][-1] is None]
             if ks:
@@ -1992,6 +2095,18 @@ def search(ctx, budget):
             _KEY_OVERRIDE.append(key)   # regression streams keep the key of the defect they guard
             try:
                 dot_oracle(ctx, spec)
+            finally:
+                _KEY_OVERRIDE.pop()
+    # 5b. scalar multipliers: every scalar type x every route (Multiply(shape, a), conj=True, a * A, A * a), complex and
+    #     real vectors, all call options
+    if ctx.prop == "C01":
+        for spec, _, route, tag in scalar_type_sweep(rng):
+            ctx.case(("oracle", json.dumps(spec)))
+            ctx.count("oracle:scalar-type:" + tag)
+            _KEY_OVERRIDE.append("C01:scalar-multiplier:%s" % route)
+            try:
+                dot_oracle(ctx, spec)
+                dot_oracle(ctx, spec, real=rng.random() < 0.5, opts=count_opts(ctx, spec_opts(rng, spec)))
             finally:
                 _KEY_OVERRIDE.pop()
     # 6. operator programs: every live object of a history with shared operands and adjoints taken in between
